@@ -11,6 +11,11 @@ pub struct Event {
     pub site: String,
     #[serde(default)]
     pub len: u64,
+    /// 1-based occurrence number of this site in the process (addressable by site rules)
+    #[serde(default)]
+    pub occ: u64,
+    #[serde(default)]
+    pub path: String,
 }
 
 pub struct CountRun {
@@ -94,6 +99,9 @@ pub struct CrashObs {
     pub diverged: Option<String>,
     /// per topic: a consuming batch read was issued (acknowledged or in flight)
     pub batch_consumed: Vec<bool>,
+    /// per topic: model cursor after every acknowledged read_next(checkpoint=true) that returned
+    /// an entry (AtLeastOnce persists on every persist_every-th such call)
+    pub rn_positions: Vec<Vec<usize>>,
 }
 
 pub fn crash_run(cfg: &Cfg, steps: &[Step], plan: &str, base: &RunOpts, drain_batch: bool) -> CrashObs {
@@ -112,6 +120,7 @@ pub fn crash_run(cfg: &Cfg, steps: &[Step], plan: &str, base: &RunOpts, drain_ba
         unexpected_death: None,
         diverged: None,
         batch_consumed: vec![false; run.model.topics.len()],
+        rn_positions: vec![Vec::new(); run.model.topics.len()],
     };
     let check_death = |m: &str, obs: &mut CrashObs| {
         if !m.starts_with("exit=137") {
@@ -145,7 +154,14 @@ pub fn crash_run(cfg: &Cfg, steps: &[Step], plan: &str, base: &RunOpts, drain_ba
                 obs.batch_consumed[*t as usize] = true;
             }
             match run.apply(s) {
-                Ok(()) => {}
+                Ok(()) => {
+                    if let Step::Do(Op::ReadNext { t, ck: true, .. }) = s {
+                        let c = run.model.topics[*t as usize].consumed_max();
+                        if c > before.topics[*t as usize].consumed_max() {
+                            obs.rn_positions[*t as usize].push(c);
+                        }
+                    }
+                }
                 Err(v) => {
                     if let Some(m) = run.out.died.clone() {
                         obs.died_step = Some(i);
@@ -319,7 +335,12 @@ pub fn judge(j: Judge, cfg: &Cfg, obs: &CrashObs) -> Result<(), String> {
                         Mode::Alo(n) => n.max(1) as usize,
                         Mode::Strict => 1,
                     };
-                    let lo = if obs.batch_consumed.get(ti).copied().unwrap_or(true) { 0 } else { consumed.saturating_sub(every) };
+                    // (batch reads share and reset the persist counter without persisting, so
+                    // for mixed consumption the property's bound is not defined; the dedicated
+                    // search "alo-readnext" generates read_next-only consumers)
+                    let rn = &obs.rn_positions[ti];
+                    let k = rn.len().saturating_sub(every);
+                    let lo = if obs.batch_consumed.get(ti).copied().unwrap_or(true) { 0 } else if k == 0 { 0 } else { rn[k - 1] };
                     (lo, hi, Tail::Subsequence)
                 }
             }
@@ -332,6 +353,12 @@ pub fn judge(j: Judge, cfg: &Cfg, obs: &CrashObs) -> Result<(), String> {
                 let what = match (j, loose) {
                     (Judge::C09, Some((c, _))) if strict && c < consumed => format!(
                         "StrictlyAtOnce consumer resumes at entry #{} although consuming reads had returned {} entries: {} entries are delivered again",
+                        c,
+                        consumed,
+                        consumed - c
+                    ),
+                    (Judge::C09, Some((c, _))) if c < consumed => format!(
+                        "AtLeastOnce consumer (read_next only) resumes at entry #{} although {} entries had been consumed: {} entries are delivered again, more than persist_every",
                         c,
                         consumed,
                         consumed - c
@@ -674,14 +701,25 @@ pub fn c09(ctx: &Ctx) {
         ("tiny", SizeProfile::Tiny, 4..30, if q { 56 } else { 1200 }, if q { 16 } else { 400 }),
         ("block", SizeProfile::Block, 4..14, if q { 32 } else { 500 }, if q { 12 } else { 400 }),
     ];
-    for (name, prof, nops, cases, pts) in plans {
+    let plans_n = plans.len();
+    let mut plans = plans;
+    // AtLeastOnce consumers that use read_next only: the persist_every redelivery bound
+    plans.push(("alo-readnext", SizeProfile::Tiny, 6..40, if q { 48 } else { 1000 }, if q { 12 } else { 400 }));
+    for (pi, (name, prof, nops, cases, pts)) in plans.into_iter().enumerate() {
         let prop = ctx.prop.clone();
         let mut base = RunOpts::default();
         base.exclude = excl.clone();
         let nops2 = nops.clone();
+        let rn_only = pi >= plans_n;
         let s = Search {
             name: name.to_string(),
-            strategy: Box::new(move || case_strategy(c09_mix(), prof, nops2.clone(), 2, prop_oneof![2 => Just(Mode::Strict), 1 => (1u32..=8).prop_map(Mode::Alo)].boxed())),
+            strategy: Box::new(move || {
+                if rn_only {
+                    case_strategy(Mix { append: 30, batch: 10, read_next: 50, batch_read: 0, max_batch: 6, ..Mix::consuming() }, prof, nops2.clone(), 2, (1u32..=6).prop_map(Mode::Alo).boxed())
+                } else {
+                    case_strategy(c09_mix(), prof, nops2.clone(), 2, prop_oneof![2 => Just(Mode::Strict), 1 => (1u32..=8).prop_map(Mode::Alo)].boxed())
+                }
+            }),
             run: Box::new(move |case: &Case| {
                 let cc = CrashCfg { judge: Judge::C09, max_points: pts, focus: is_consuming_read, all_points_outside_focus: true, exclude_inside_batch_writes: false };
                 crash_case(&prop, case, &base, &cc)
